@@ -57,13 +57,19 @@ class Ctx:
                 newdefs = self.M.new_definitions()
             except Exception:
                 newdefs = {}
-            if newdefs:
+            if newdefs and not read_all:
                 import re
                 text = '%s %s' % (instance, detail if detail is not None else '')
                 if rule in ('C15.S1', 'C01.S3b'):
                     # path rules with every callee followed: functions are named as the PLACES of writes and guards; only the refusing site itself counts
                     text = str(instance).split(' [')[0]
                 allnew = {n_ for ns_ in newdefs.values() for n_ in ns_ if not n_.startswith('__')}
+                try:
+                    # a property that keeps a field name of the pinned tree alive (start_dt now read off a helper object) is that field, not something new
+                    from .model import _baseline
+                    allnew -= {f_ for fs_ in (_baseline().get('fields') or {}).values() for f_ in fs_}
+                except Exception:
+                    pass
                 named = sorted(n_ for n_ in allnew if len(n_) > 3 and re.search(r'(?<![A-Za-z0-9_])%s(?![A-Za-z0-9_])' % re.escape(n_), text))
                 if named:
                     # the evidence names a class or function this tree introduces (left as a call, or as the type of an object): not read to the end
